@@ -15,7 +15,9 @@ func c16Entries(n int) []SearchEntry {
 // (1) whatever the file holds, recording a search neither crashes nor loses the search
 func VerifHarness_C16_AnyFile() {
 	path := verifFSRoot() + "/cfg/wtf/search_history.json"
-	switch verifIntRange("file", 0, 3) {
+	switch verifIntRange("file", 0, 4) {
+	case 4: // well-formed JSON with a wrongly typed field: decoding fills the rest, then fails
+		verifFSPutDocBroken(path, "json", &SearchHistory{Entries: c16Entries(verifIntRange("stored", 0, 1)), MaxSize: verifInt("max_size")}, "entries")
 	case 0: // missing
 	case 1:
 		verifFSPutBytes(path, nil) // empty
